@@ -4,13 +4,15 @@ import NunavutVerif.Proto
 Driver for the C11 correspondence.  One request per line, fields separated by one space; strings are
 encoded as in `Proto` (code points joined by '.', `-` = empty string).
 
-  `tree <enable 0|1> <ext> <stem> <outdir> <order> <strops> <types> <refs>`
+  `tree <enable 0|1> <ext> <stem> <outdir> <order> <strops> <types> <refs> <subs> <names>`
       order  : `fwd` | `rev` | the keys of the index in the order the second pass walks them, joined by ',' (`!` = none)
       strops : `name>stropped` pairs joined by ',' (`!` = none)    - the sampled `filter_id(·,"path")`
       types  : the list handed to `build_namespace_tree`, each `c1/c2/…/cn:short:major:minor`, joined by ',' (`!` = none)
       refs   : further types (dependencies living in other root namespaces), same format
+      subs   : parts of the language's `support_namespace`, encoded, joined by ',' (`!` = none)
+      names  : file names of the support resources (`serialization.j2`, …), encoded, joined by ',' (`!` = none)
     → `err:strop-missing` | `err:order` | `err:value` (a `ValueError` leaves `build_namespace_tree`) |
-      `ok <root> <nodes> <namespaces> <datatypes> <alltypes> <find> <inc>` where
+      `ok <root> <nodes> <namespaces> <datatypes> <alltypes> <find> <inc> <sup>` where
         nodes      : `key=parent=nested+nested=path=ty@path+ty@path` joined by ';' (store order; `~` = none/empty)
         namespaces : keys yielded by `get_all_namespaces`, joined by ';'
         datatypes  : `ty@path` yielded by `get_all_datatypes`, joined by ';'
@@ -18,6 +20,7 @@ encoded as in `Proto` (code points joined by '.', `-` = empty string).
         find       : for every yielded namespace (same order) and every type of types++refs (same order)
                      `H<path>` | `K` (KeyError) | `F` (model out of fuel), joined by ';'
         inc        : for every type of types++refs `<include path as posix>@<type_to_include_path as posix>`
+        sup        : `<get_support_output_folder() of every yielded namespace, joined by ';'>|<target of every support resource, joined by ';'>`
       paths are parts joined by '/', posix strings are encoded strings, errors `E<kind>`.
   `treeold …`    the same through `Namespace.__eq__` as it was before the fix (stropped full name)
   `path <op> …`  the pathlib fragment on its own:
@@ -87,7 +90,7 @@ def parseOrder (s : String) (idx : List Key) : Option (List Key) :=
     | none => none
 
 def answerTree (old : Bool) (enable : Bool) (ext stem outDir : Str) (order : String) (tab : List (Str × Str))
-    (ts refs : List Ty) : String :=
+    (ts refs : List Ty) (subs names : List Str) : String :=
   let needed := (ts ++ refs).flatMap (fun t => shortVer t :: t.ns) ++ (if ts.isEmpty then [[]] else [])
   if needed.any (fun n => (tab.lookup n).isNone) then "err:strop-missing" else
   let cfg : Cfg := ⟨fun s => (tab.lookup s).getD s, enable, ext, stem, outDir⟩
@@ -101,8 +104,10 @@ def answerTree (old : Bool) (enable : Bool) (ext stem outDir : Str) (order : Str
   let every := ts ++ refs
   let finds := nss.flatMap (fun s => every.map (fun t => showFound (findPathBy same tr.store s t)))
   let inc := every.map (fun t => s!"{showPosix (includePath cfg t)}@{showPosix (typeToIncludePath cfg tr t)}")
+  let sup := semi (nss.map (fun k => showParts (baseOf cfg tr.store k))) ++ "|" ++
+    semi (names.map (fun n => showPathR (supportTarget cfg tr subs n)))
   " ".intercalate ["ok", showKey tr.root, semi (tr.store.map showNode), semi (nss.map showKey),
-    semi ((allDatatypes tr).map showEntry), semi ((allTypes tr).map showItem), semi finds, semi inc]
+    semi ((allDatatypes tr).map showEntry), semi ((allTypes tr).map showItem), semi finds, semi inc, sup]
 
 def answerPath (args : List String) : String :=
   match args with
@@ -130,15 +135,15 @@ def answerPath (args : List String) : String :=
 
 def answer (line : String) : String :=
   match line.splitOn " " with
-  | [op, en, ext, stem, outDir, order, strops, types, refs] =>
+  | [op, en, ext, stem, outDir, order, strops, types, refs, subs, names] =>
     if op ≠ "tree" ∧ op ≠ "treeold" then "bad-op" else
     match decodeStr ext, decodeStr stem, decodeStr outDir, listOf strops ',' parsePair,
-          listOf types ',' parseTy, listOf refs ',' parseTy with
-    | some ext, some stem, some outDir, some tab, some ts, some refs =>
+          listOf types ',' parseTy, listOf refs ',' parseTy, listOf subs ',' decodeStr, listOf names ',' decodeStr with
+    | some ext, some stem, some outDir, some tab, some ts, some refs, some subs, some names =>
       if en = "0" ∨ en = "1" then
-        answerTree (op = "treeold") (en = "1") ext stem outDir order tab ts refs
+        answerTree (op = "treeold") (en = "1") ext stem outDir order tab ts refs subs names
       else "bad-op"
-    | _, _, _, _, _, _ => "bad-op"
+    | _, _, _, _, _, _, _, _ => "bad-op"
   | "path" :: args => answerPath args
   | _ => "bad-op"
 
